@@ -316,6 +316,14 @@ def run(ctx):
             ct = f.get('chunk_type')
             ok = ct is not None and ct[0] == 'call' and ct[1] == 'asefile::parse::parse_chunk_type' and layout.is_read_term(ct[2][0]) \
                 and bindings.get(ct[2][0][3], ('', ''))[1] == 'chunk_type'
+            if not ok and ct is not None and fx.body('asefile::parse::parse_chunk_type') is None and \
+                    all(a[0] == 'agg' and a[2] is not None and (a[1] or '').endswith('ChunkType') for a in alts(ct)):
+                # the code -> kind table written inline (or in a renamed helper that was inlined): the variants are chosen by a
+                # match on the chunk header's type word (the table itself is C15's rule T1)
+                for sw in q.switches_on(cr, lambda d: True):
+                    inner_, bad_ = layout.unwrap_value(q.switch_cond(cr, sw))
+                    if layout.is_read_term(inner_) and bindings.get(inner_[3], ('', ''))[1] == 'chunk_type' and not bad_:
+                        ok = True
             ctx.inst('O3', 'Chunk.chunk_type', ok, 'Chunk.chunk_type = %s; must be parse_chunk_type(chunk header type word)' % show(ct),
                      st['span'], key=cr.name + '|O3|type')
             dt = f.get('data')
